@@ -284,8 +284,9 @@ def unit_objcheckout(u):
     if len(loops) != 2:
         raise U.Unsupported(f"_checkout: {len(loops)} top-level for loops, expected 2 (deletions; additions + modifications)")
     dl, fl = loops
-    if _u(dl.iter) != "diff.deleted" or dl.orelse:
-        raise U.Unsupported(f"_checkout: first loop iterates `{_u(dl.iter)}`, not diff.deleted")
+    # fix 38c4abf: the root entry is removed last (`sorted(diff.deleted, key=lambda change: change.old.key == ROOT)`)
+    if _u(dl.iter) not in ("sorted(diff.deleted, key=lambda change: change.old.key == ROOT)",) or dl.orelse:
+        raise U.Unsupported(f"_checkout: first loop iterates `{_u(dl.iter)}`, not diff.deleted with the root last")
     calls = [x for x in dl.body if isinstance(x, ast.Expr) and isinstance(x.value, ast.Call)]
     rest = [x for x in dl.body if x not in calls]
     if not (len(calls) == 1 and _u(calls[0].value.func) == "_remove" and len(calls[0].value.args) == 3
@@ -311,6 +312,8 @@ def unit_objcheckout(u):
             caught.extend(_u(e) for e in h.type.elts)
         else:
             caught.append(_u(h.type))
+    u.out.append("(* the deletion loop handles the root entry after every other deleted entry *)\n"
+                 "Definition gen_delete_root_last : bool := true.\n")
     u.out.append(f"(* hashfile/checkout.py:{f.lineno} _checkout: the in_cache argument of the guarded removal of a deleted entry *)\n"
                  f"Definition gen_delete_guard : gsrc := {dsrc}.\n"
                  "(* ... and the exception classes the per-file loop catches around _checkout_file (names as text) *)\n"
